@@ -209,8 +209,8 @@ def interp(ctx, aid, table):
                 ctx.rec(aid, oi, "ret", ("raised",))
                 cur.op = None
                 raise
-            except KeyboardInterrupt:
-                ctx.rec(aid, oi, "ret", ("exc", "KeyboardInterrupt", ""))
+            except (KeyboardInterrupt, SystemExit) as e:
+                ctx.rec(aid, oi, "ret", ("exc", type(e).__name__, ""))
                 cur.op = None
                 raise
             except BaseException as e:  # noqa: BLE001
@@ -404,6 +404,11 @@ def do_op(ctx, aid, oi, table, op):
         return ("ok",)
     if k == "raise":
         raise BodyError(op[1] if len(op) > 1 else "body boom")
+    if k == "raise_sys":
+        raise SystemExit(op[1] if len(op) > 1 else 3)
+    if k == "ident":
+        cur = s.current
+        return ("ident", cur.id, bool(cur.is_main), cur.proc.name if cur.proc else None)
     if k == "exit_body":
         return ("stop",)
     if k == "status":
